@@ -128,7 +128,7 @@ CHECKS["C10"] = dict(
     rule="all histories of 20 cache operations (incl. a pod whose resources arrive asynchronously from the pod resources API after InsertPod has saved, and a plugin restart: a new cache instance on the same state directory, not rendered before the next save) up to the depth bound on a real cache that starts on a fresh state directory (the very first save, into a directory without a cache file, is hooked and judged too); per save: the directory state at every primitive-step boundary and at every byte offset of a write that targets the cache file itself "
          "(offsets of writes into the temporary file leave the cache file untouched and are reloaded at the first, middle and last byte only) is materialised and loaded with NewCache; every primitive step is made to fail once "
          "(EIO, also with short writes); target x kind x all 512 modes for the permission clause; non-trivial = histories containing a container / refused permission cases",
-    bound=dict(quick="depth 3 histories; 7680 permission cases", thorough="depth 6 histories; 7680 permission cases"),
+    bound=dict(quick="depth 3 histories; 7680 permission cases", thorough="depth 5 histories; 7680 permission cases"),
     assumptions=["crash = process kill or failed system call (no power-loss / unsynced-data model; the code does not fsync)",
                  "filesystem steps not made through the intercepted os functions of cache.go are seen only at step boundaries"],
     stages=[dict(pkg="./pkg/resmgr/cache", run="TestVerifC10", shards=16)],
